@@ -69,6 +69,21 @@ Applicable(T, a) ==
     [] a.op = "PutCommit" -> T.slow.act
     [] OTHER -> TRUE
 
+\* Reader steps after the resolve: the property speaks about what the reader
+\* DELIVERS, not about when it opens its parts, so the order of its open / read
+\* calls is taken from the log (a read-ahead is as legitimate as a lazy open).
+\* What the part store answered to an open (pok) must agree with the model's
+\* stores; delivery and final error are adopted and judged by ReaderOutcome.
+RdEvent(e) == e.e \in {"RdOpen", "RdRead", "RdClose"}
+RdPossible(T, e) ==
+  /\ T.rd.st # "idle"
+  /\ e.e = "RdClose" => e.rd.st = "idle"
+  /\ e.pok # "none" => (e.n \in Rng(T.rd.man) /\ ((e.pok = "ok") <=> PartVisible(T, e.n)))
+RdApply(T, e) ==
+  IF e.e = "RdClose" THEN [T EXCEPT !.rd = RdIdle, !.res = e.res]
+  ELSE [T EXCEPT !.rd.st = e.rd.st, !.rd.err = e.rd.err, !.rd.cur = 0,
+                 !.rd.got = IF e.rd.gk THEN e.rd.got ELSE @, !.res = e.res]
+
 \* state adopted from the log (after a crash and restart of the real storage)
 Adopted(e) ==
   LET n == Len(e.st.reg) IN
@@ -140,6 +155,11 @@ TNext ==
           THEN LET T == [S EXCEPT !.res = "final"] IN
                IF Differs(T, e) = {} THEN S' = T /\ bad' = FALSE /\ Report(T, e, l)
                ELSE Diag(T, e, l, "state") /\ bad' = TRUE /\ UNCHANGED S
+     ELSE IF RdEvent(e)
+          THEN IF ~RdPossible(S, e) THEN Diag(S, e, l, "reader step / part store answer not possible in the model state") /\ bad' = TRUE /\ UNCHANGED S
+               ELSE LET T == RdApply(S, e) IN
+                    IF Differs(T, e) = {} THEN S' = T /\ bad' = FALSE /\ Report(T, e, l)
+                    ELSE Diag(T, e, l, "state") /\ bad' = TRUE /\ UNCHANGED S
      ELSE LET a == CallOf(e) IN
           IF ~Applicable(S, a) THEN Diag(S, e, l, "call not possible in the model state") /\ bad' = TRUE /\ UNCHANGED S
           ELSE LET T == Eff(S, a) IN
